@@ -35,6 +35,8 @@ def plan(ctx):
     cases += [("problemL", i) for i in range(40 if ctx.thorough else 3)]
     # many surveys: two-digit offset names (dv0_10, dv0_11, ...) - beyond what any single-digit test exercises
     cases += [("manysurveys", i) for i in range(12 if ctx.thorough else 2)]
+    # many epochs: det(2 pi B) itself (not its logarithm) leaves the double range - (2 pi sigma^2)^n in the data unit
+    cases += [("manyepochs", i) for i in range(24 if ctx.thorough else 6)]
     return cases
 
 
@@ -304,9 +306,84 @@ def setup(ctx):
         raise core.Infra(f"pyx->Python translator disagrees with the compiled binary on the revision it was built from: {r}")
 
 
+def run_manyepochs(ctx, g, rng):
+    """50-160 epochs in the regimes where (2 pi sigma^2)^n over- or underflows in the data unit (km/s-class errors given in
+    m/s; m/s-class errors given in km/s).  The value is compared with a differently organised float64 evaluation
+    (numpy slogdet + solve on the dense B): relation api.float, plus finiteness."""
+    import astropy.units as u
+    import thejoker as tj
+    import pymc as pm
+    regime = ("overflow", "underflow")[g["index"] % 2]
+    n = int(rng.integers(50, 90)) if regime == "overflow" else int(rng.integers(90, 160))
+    t = np.sort(rng.uniform(0, 800, n)) + 58000.0
+    if regime == "overflow":
+        unit, err = u.m / u.s, rng.uniform(800, 2500, n)          # km/s-class errors expressed in m/s
+        amp = 20000.0
+    else:
+        unit, err = u.km / u.s, rng.uniform(0.002, 0.006, n)       # few-m/s errors expressed in km/s
+        amp = 20.0
+    P0, e0, om0, M00, K0 = float(rng.uniform(5, 80)), float(rng.uniform(0, 0.5)), 1.0, 2.0, amp
+    y = K0 * scen.kepler_column(t, P0, e0, om0, M00, float(t.min())) + amp * 0.3 + rng.normal(0, 1, n) * err
+    data = tj.RVData(t, y * unit, err * unit)
+    with pm.Model():
+        prior = tj.JokerPrior.default(P_min=2 * u.day, P_max=500 * u.day, sigma_K0=30 * u.km / u.s, sigma_v=100 * u.km / u.s)
+    N = 6
+    smp = tj.JokerSamples()
+    Ps = np.concatenate([[P0], rng.uniform(3, 300, N - 1)])
+    es = np.concatenate([[e0], rng.uniform(0, 0.8, N - 1)])
+    oms = np.concatenate([[om0], rng.uniform(0, 6.28, N - 1)])
+    Ms = np.concatenate([[M00], rng.uniform(0, 6.28, N - 1)])
+    smp["P"] = Ps * u.day; smp["e"] = es * u.one; smp["omega"] = oms * u.rad; smp["M0"] = Ms * u.rad
+    smp["s"] = np.zeros(N) * unit
+    jk = tj.TheJoker(prior, rng=np.random.default_rng(1))
+    ctx.count(f"manyepochs:{regime}")
+    inp = dict(regime=regime, n_epochs=n, data_unit=str(unit), median_err=float(np.median(err)),
+               n_log10_2pi_var=float(n * np.log10(2 * np.pi * np.median(err) ** 2)))
+    got = {}
+    for pth, kw in (("in_memory", dict(in_memory=True)), ("cache", dict())):
+        try:
+            got[pth] = np.asarray(jk.marginal_ln_likelihood(data, smp, **kw), dtype=float)
+        except Exception as e:   # noqa: BLE001
+            ctx.evaluated(R3, (g["kind"], g["index"]))
+            ctx.violation(R3, g, inp, f"{type(e).__name__}: {str(e)[:160]}", None,
+                          f"marginal_ln_likelihood ({pth}) must return a finite value for every finite valid input; it raised",
+                          tags=dict(kind="manyepochs", regime=regime, path=pth))
+            return
+    f = float((1 * u.km / u.s).to_value(unit))
+    sigK0, sigv, maxK = 30.0 * f, 100.0 * f, 500.0 * f
+    for i in range(N):
+        kep = scen.kepler_column(t, Ps[i], es[i], oms[i], Ms[i], float(t.min()))
+        M = np.stack([kep, np.ones(n)], axis=1)
+        lamK = min(sigK0 ** 2 * (Ps[i] / 365.25) ** (-2 / 3) / (1 - es[i] ** 2), maxK ** 2)
+        lam = np.array([lamK, sigv ** 2])
+        # scaled so that the reference itself stays in range: B = D (I + W Lam W^T) D with D = diag(err), W = M / err
+        W = M / err[:, None]
+        S = np.eye(n) + (W * lam) @ W.T
+        sign, ld = np.linalg.slogdet(S)
+        z = y / err
+        chi2 = float(z @ np.linalg.solve(S, z))
+        ref = -0.5 * (chi2 + ld + 2 * float(np.sum(np.log(err))) + n * np.log(2 * np.pi))
+        cS = float(np.linalg.cond(S))
+        tol = 1e-9 * (1 + abs(ref)) + 200 * 2.220446049250313e-16 * cS * (abs(chi2) + n)
+        for pth, arr in got.items():
+            v = float(arr[i])
+            ctx.evaluated(R2, (g["kind"], g["index"], i))
+            if not np.isfinite(v):
+                ctx.violation(R3, g, dict(inp, row=i), {pth: v}, dict(ll_reference=ref),
+                              "marginal_ln_likelihood must be finite for every finite valid input", tags=dict(kind="manyepochs", regime=regime, path=pth))
+                return
+            if abs(v - ref) > tol and abs(v - ref) > 1e-6 * (1 + abs(ref)):
+                ctx.violation(R2, g, dict(inp, row=i, theta=dict(P=Ps[i], e=es[i])), {pth: v}, dict(ll_reference=ref, tol=tol, cond=cS),
+                              f"marginal_ln_likelihood ({pth}) must agree with the closed form to numerical round-off "
+                              f"(many epochs: deviation {abs(v - ref):.3g})", tags=dict(kind="manyepochs", regime=regime, path=pth))
+                return
+
+
 def run_case(ctx, g):
     ctx.seed = g.get("seed", ctx.seed)
     rng = ctx.case_rng(g["kind"], g["index"])
+    if g["kind"] == "manyepochs":
+        return run_manyepochs(ctx, g, rng)
     run_problem(ctx, g, rng, high_e=(g["kind"] == "higheccen"), large=(g["kind"] == "problemL"), many=(g["kind"] == "manysurveys"))
 
 
@@ -322,5 +399,7 @@ def post(ctx):
         ctx.require("p>=2 problems", c["p=2"] + c["p=3"], 4)
         ctx.require("model sanity checks", c["model_sanity_checks"], 10)
         ctx.require("problems with >= 10 survey offsets", c["many_surveys"], 2)
+        ctx.require("many-epoch problems where (2 pi sigma^2)^n overflows", c["manyepochs:overflow"], 2)
+        ctx.require("many-epoch problems where (2 pi sigma^2)^n underflows", c["manyepochs:underflow"], 2)
         ctx.require("certified Lean evaluations with k > 6", c["model_sanity_checks_certified_large_k"], 2)
         ctx.require("libraries mixing s == 0 and s > 0 rows", c["mixed_jitter_library"], 3)
